@@ -28,6 +28,7 @@
 #include <sstream>
 #include <fstream>
 #include <functional>
+#include <algorithm>
 using namespace llvm;
 using std::string;
 
@@ -449,6 +450,219 @@ static string val(const Value* v) {
   return it->second;
 }
 
+// ---- decomposition of constant-size mem intrinsics into typed leaf-field operations -------------------------------
+// CBMC's built-in memcpy/memset on a *part of a struct* turns the whole object into a byte_update expression and symex
+// loses the constant values of unrelated fields (vptrs, member pointers) -- virtual calls then fan out over every
+// candidate. LLVM merges adjacent member initialisations/copies into such intrinsics all the time, so ll2c undoes it.
+struct Leaf { string expr; uint64_t off; uint64_t size; Type* ty; };
+static bool collectLeaves(Type* t, const string& expr, uint64_t off, std::vector<Leaf>& out, unsigned& budget) {
+  if (budget == 0) return false;
+  if (auto* st = dyn_cast<StructType>(t)) {
+    if (st->isOpaque()) return false;
+    const StructLayout* SL = C.DL->getStructLayout(st);
+    for (unsigned i = 0; i < st->getNumElements(); i++)
+      if (!collectLeaves(st->getElementType(i), expr + ".f" + std::to_string(i), off + SL->getElementOffset(i), out, budget)) return false;
+    return true;
+  }
+  if (auto* at = dyn_cast<ArrayType>(t)) {
+    uint64_t es = C.DL->getTypeAllocSize(at->getElementType());
+    for (uint64_t i = 0; i < at->getNumElements(); i++)
+      if (!collectLeaves(at->getElementType(), expr + ".a[" + std::to_string(i) + "]", off + i * es, out, budget)) return false;
+    return true;
+  }
+  if (t->isIntegerTy() || t->isPointerTy() || t->isFloatTy() || t->isDoubleTy()) {
+    budget--;
+    out.push_back({expr, off, C.DL->getTypeStoreSize(t), t});
+    return true;
+  }
+  return false;
+}
+// resolves a pointer operand to (typed base pointer value, constant byte offset)
+static bool resolveBase(const Value* p, const Value*& base, uint64_t& off) {
+  off = 0;
+  for (int guard = 0; guard < 16; guard++) {
+    if (auto* bc = dyn_cast<BitCastOperator>(p)) { p = bc->getOperand(0); continue; }
+    if (auto* g = dyn_cast<GEPOperator>(p)) {
+      APInt o(64, 0);
+      if (!g->accumulateConstantOffset(*C.DL, o)) return false;
+      if (o.isNegative()) return false;
+      off += o.getZExtValue();
+      p = g->getPointerOperand();
+      continue;
+    }
+    break;
+  }
+  if (!p->getType()->isPointerTy()) return false;
+  base = p;
+  return true;
+}
+static bool leavesInRange(const Value* ptr, uint64_t n, std::vector<Leaf>& out) {
+  const Value* base; uint64_t off;
+  if (!resolveBase(ptr, base, off)) return false;
+  Type* pt = base->getType()->getPointerElementType();
+  if (!(pt->isStructTy() || pt->isArrayTy())) return false;
+  if (auto* st = dyn_cast<StructType>(pt)) if (st->isOpaque()) return false;
+  if (off + n > C.DL->getTypeAllocSize(pt)) return false;
+  defineAggregate(pt);
+  std::vector<Leaf> all; unsigned budget = 4096;
+  if (!collectLeaves(pt, "(*(" + val(base) + "))", 0, all, budget)) return false;
+  uint64_t covered = 0;
+  for (auto& l : all) {
+    if (l.off + l.size <= off || l.off >= off + n) continue;
+    if (l.off < off || l.off + l.size > off + n) return false;  // partial leaf
+    out.push_back({l.expr, l.off - off, l.size, l.ty});
+    covered += l.size;
+  }
+  (void)covered;  // padding bytes inside the range carry no value
+  return !out.empty() && out.size() <= 300;
+}
+static bool emitMemDecomposed(const CallInst* ci, Intrinsic::ID id, std::ostream& body) {
+  auto* len = dyn_cast<ConstantInt>(ci->getArgOperand(2));
+  if (!len) return false;
+  uint64_t n = len->getZExtValue();
+  if (n == 0) { return true; }
+  if (n > 4096) return false;
+  std::vector<Leaf> d;
+  if (!leavesInRange(ci->getArgOperand(0), n, d)) return false;
+  if (id == Intrinsic::memset) {
+    auto* cv = dyn_cast<ConstantInt>(ci->getArgOperand(1));
+    if (!cv) return false;
+    uint64_t b = cv->getZExtValue() & 0xff;
+    std::ostringstream o;
+    for (auto& l : d) {
+      if (l.ty->isIntegerTy()) {
+        uint64_t v = 0; for (uint64_t i = 0; i < l.size && i < 8; i++) v |= b << (8 * i);
+        if (l.size > 8 && b != 0) return false;
+        o << "  " << l.expr << " = " << maskExpr(l.ty->getIntegerBitWidth(), std::to_string(v) + "ULL") << ";\n";
+      } else if (b == 0) o << "  " << l.expr << " = " << zeroInit(l.ty, false) << ";\n";
+      else return false;
+    }
+    body << o.str();
+    return true;
+  }
+  std::vector<Leaf> s;
+  if (!leavesInRange(ci->getArgOperand(1), n, s)) {
+    // source is raw memory: copy leaf by leaf (each builtin copy then touches one scalar field only)
+    const Value* sv = ci->getArgOperand(1);
+    if (d.size() > 64) return false;
+    std::ostringstream o;
+    for (auto& l : d)
+      o << "  vp_memcpy((void*)&" << l.expr << ", (const void*)((u8*)(" << val(sv) << ") + " << l.off << "), " << l.size << ");\n";
+    body << o.str();
+    return true;
+  }
+  if (s.size() != d.size()) return false;
+  for (size_t i = 0; i < d.size(); i++) if (s[i].off != d[i].off || s[i].size != d[i].size) return false;
+  std::ostringstream o;
+  // memmove semantics: read everything first when the regions may overlap (same base object) -- use temporaries
+  bool viaTmp = id == Intrinsic::memmove;
+  if (viaTmp && d.size() > 64) return false;
+  if (viaTmp) {
+    o << "  {\n";
+    for (size_t i = 0; i < d.size(); i++) o << "    " << cty(s[i].ty) << " t" << i << "__ = " << s[i].expr << ";\n";
+  }
+  for (size_t i = 0; i < d.size(); i++) {
+    string src = viaTmp ? "t" + std::to_string(i) + "__" : s[i].expr;
+    Type* a = d[i].ty; Type* b = s[i].ty;
+    if (a == b) o << "  " << d[i].expr << " = " << src << ";\n";
+    else if (a->isPointerTy() && b->isPointerTy()) o << "  " << d[i].expr << " = (" << cty(a) << ")" << src << ";\n";
+    else if (a->isIntegerTy() && b->isIntegerTy()) o << "  " << d[i].expr << " = (" << cty(a) << ")" << src << ";\n";
+    else if (a->isPointerTy() && b->isIntegerTy(64)) o << "  " << d[i].expr << " = (" << cty(a) << ")(u64)" << src << ";\n";
+    else if (a->isIntegerTy(64) && b->isPointerTy()) o << "  " << d[i].expr << " = (u64)" << src << ";\n";
+    else if (viaTmp) o << "  vp_memcpy((void*)&" << d[i].expr << ", (const void*)&" << src << ", " << d[i].size << ");\n";
+    else o << "  vp_memcpy((void*)&" << d[i].expr << ", (const void*)&" << s[i].expr << ", " << d[i].size << ");\n";
+  }
+  if (viaTmp) o << "  }\n";
+  body << o.str();
+  return true;
+}
+
+// ---- vtable-slot based devirtualisation -----------------------------------------------------------------------------
+// an indirect call "load (gep (load vptr), k)" can only reach functions stored at slot k (relative to an address point)
+// of some emitted vtable; ll2c emits that dispatch itself instead of leaving CBMC to try every address-taken function of
+// similar shape (which explodes as soon as a vptr is not a syntactic constant after a state merge)
+static bool sameShape(FunctionType* a, FunctionType* b) {
+  if (a->getNumParams() != b->getNumParams() || a->isVarArg() != b->isVarArg()) return false;
+  auto cls = [](Type* t) -> int { return t->isPointerTy() ? 1000 : t->isIntegerTy() ? (int)t->getIntegerBitWidth() : t->isVoidTy() ? 2000 : t->isFloatTy() ? 3000 : t->isDoubleTy() ? 3001 : 4000 + (int)t->getTypeID(); };
+  if (cls(a->getReturnType()) != cls(b->getReturnType())) return false;
+  for (unsigned i = 0; i < a->getNumParams(); i++) if (cls(a->getParamType(i)) != cls(b->getParamType(i))) return false;
+  return true;
+}
+static string normName(StructType* st) {
+  if (!st->hasName()) return "";
+  string n = st->getName().str();
+  for (;;) {
+    size_t d = n.rfind('.');
+    if (d == string::npos) break;
+    string suf = n.substr(d + 1);
+    bool num = !suf.empty() && std::all_of(suf.begin(), suf.end(), [](char c) { return isdigit((unsigned char)c); });
+    if (num || suf == "base") n = n.substr(0, d); else break;
+  }
+  return n;
+}
+// class-hierarchy filter: the candidate's 'this' class must be the static class or contain it as a (nested) base subobject
+static bool derivesFrom(Type* cand, const string& base, int depth) {
+  auto* st = dyn_cast<StructType>(cand);
+  if (!st || depth > 8) return false;
+  if (normName(st) == base) return true;
+  if (st->isOpaque()) return false;
+  for (Type* e : st->elements()) if (e->isStructTy() && derivesFrom(e, base, depth + 1)) return true;
+  return false;
+}
+static bool thisCompatible(FunctionType* callTy, const Function* cand) {
+  if (callTy->getNumParams() == 0 || cand->arg_size() == 0) return true;
+  Type* a = callTy->getParamType(0); Type* b = cand->getFunctionType()->getParamType(0);
+  if (!a->isPointerTy() || !b->isPointerTy()) return true;
+  auto* sa = dyn_cast<StructType>(a->getPointerElementType());
+  auto* sb = dyn_cast<StructType>(b->getPointerElementType());
+  if (!sa || !sb) return true;
+  string base = normName(sa);
+  if (base.empty()) return true;
+  return derivesFrom(sb, base, 0);
+}
+static bool vtableSlot(const Value* callee, int64_t& slot) {
+  auto* l1 = dyn_cast<LoadInst>(callee);
+  if (!l1) return false;
+  const Value* p = l1->getPointerOperand();
+  slot = 0;
+  if (auto* g = dyn_cast<GetElementPtrInst>(p)) {
+    if (g->getNumIndices() != 1) return false;
+    auto* ci = dyn_cast<ConstantInt>(g->getOperand(1));
+    if (!ci) return false;
+    slot = ci->getSExtValue();
+    p = g->getPointerOperand();
+  }
+  auto* l2 = dyn_cast<LoadInst>(p);
+  if (!l2) return false;
+  // the inner load reads a vptr: pointer to pointer to function
+  Type* t = l2->getType();
+  if (!t->isPointerTy() || !t->getPointerElementType()->isPointerTy() || !t->getPointerElementType()->getPointerElementType()->isFunctionTy()) return false;
+  return true;
+}
+static std::vector<const Function*> slotCandidates(int64_t slot, FunctionType* ft) {
+  std::vector<const Function*> out; std::set<const Function*> seen;
+  for (const GlobalVariable* G : C.gOrder) {
+    if (!G->getName().startswith("_ZTV") || !G->hasInitializer()) continue;
+    auto* cs = dyn_cast<ConstantStruct>(G->getInitializer());
+    if (!cs) continue;
+    for (unsigned j = 0; j < cs->getNumOperands(); j++) {
+      auto* arr = dyn_cast<ConstantArray>(cs->getOperand(j));
+      if (!arr) continue;
+      // address points: any position whose two preceding entries are non-functions (offset-to-top, RTTI) is conservative;
+      // we simply try every position p and take entry p+slot when entry p-1 is not a function (RTTI slot)
+      for (unsigned p0 = 1; p0 < arr->getNumOperands(); p0++) {
+        const Value* prev = arr->getOperand(p0 - 1)->stripPointerCasts();
+        if (isa<Function>(prev)) continue;
+        int64_t idx = (int64_t)p0 + slot;
+        if (idx < 0 || idx >= (int64_t)arr->getNumOperands()) continue;
+        if (auto* f = dyn_cast<Function>(arr->getOperand(idx)->stripPointerCasts()))
+          if (sameShape(f->getFunctionType(), ft) && thisCompatible(ft, f) && seen.insert(f).second) out.push_back(f);
+      }
+    }
+  }
+  return out;
+}
+
 // ---------------------------------------------------------------- reachability
 static void collectConst(const Constant* c, std::vector<const GlobalValue*>& work, std::set<const Constant*>& seen) {
   if (!seen.insert(c).second) return;
@@ -514,8 +728,10 @@ static string idDispatch(const Value* idv, std::function<string(const string&)> 
 static string externProto(const Function* F) {
   FunctionType* ft = F->getFunctionType();
   Type* rt = ft->getReturnType();
-  string s = (rt->isPointerTy() ? string("void*") : cty(rt)) + " " + gname(F) + "(";
+  bool aggRet = rt->isStructTy() || rt->isArrayTy();   // models write aggregate results through a leading out-pointer
+  string s = (aggRet ? string("void") : rt->isPointerTy() ? string("void*") : cty(rt)) + " " + gname(F) + "(";
   bool first = true;
+  if (aggRet) { s += "void*"; first = false; }
   for (Type* p : ft->params()) {
     if (!first) s += ", ";
     s += p->isPointerTy() ? string("void*") : cty(p);
@@ -716,6 +932,7 @@ static void emitFunction(const Function* F, std::ostream& out, bool lineInfo) {
             if (!t->isVoidTy()) body << "  " << lhs << zeroInit(t, false) << ";\n";
             break;
           case Intrinsic::memcpy: case Intrinsic::memmove: case Intrinsic::memset: {
+            if (emitMemDecomposed(ci, id, body)) break;
             const char* fn = id == Intrinsic::memcpy ? "vp_memcpy" : id == Intrinsic::memmove ? "vp_memmove" : "vp_memset";
             unsigned lw = ci->getArgOperand(2)->getType()->getIntegerBitWidth();
             (void)lw;
@@ -800,6 +1017,21 @@ static void emitFunction(const Function* F, std::ostream& out, bool lineInfo) {
           } else if (cn == "vp_observe") {
             string ov = arg(1);
             body << idDispatch(ci->getArgOperand(0), [&](const string& id) { return "VP_OBSERVE(\"" + id + "\", (u64)" + ov + ");"; });
+          } else if ((cn == "_Znwm" || cn == "_Znam") && isa<ConstantInt>(ci->getArgOperand(0)) && [&]() {
+                       // typed allocation: new T with a constant size that is used as a T* -> malloc(sizeof(T)), so that
+                       // CBMC creates a typed dynamic object (vptr and fields then constant-propagate through symex)
+                       uint64_t n = cast<ConstantInt>(ci->getArgOperand(0))->getZExtValue();
+                       for (const User* u : ci->users())
+                         if (auto* bc = dyn_cast<BitCastInst>(u))
+                           if (auto* pt = dyn_cast<PointerType>(bc->getType()))
+                             if (auto* st = dyn_cast<StructType>(pt->getPointerElementType()))
+                               if (!st->isOpaque() && C.DL->getTypeAllocSize(st) == n) {
+                                 defineAggregate(st);
+                                 body << "  " << lhs << "(u8*)malloc(sizeof(" << cty(st) << ")); __CPROVER_assume(" << fc.names[&I] << " != 0);\n";
+                                 return true;
+                               }
+                       return false;
+                     }()) {
           } else {
             FunctionType* ft = ci->getFunctionType();
             bool ext = cf && cf->isDeclaration();
@@ -816,9 +1048,38 @@ static void emitFunction(const Function* F, std::ostream& out, bool lineInfo) {
               else if (ext && i >= ft->getNumParams() && at->isIntegerTy() && at->getIntegerBitWidth() < 32) a = "(u32)(" + a + ")";
               args += a;
             }
+            int64_t slot = 0;
+            std::vector<const Function*> cands;
+            if (!cf && vtableSlot(ci->getCalledOperand(), slot)) cands = slotCandidates(slot, ft);
+            if (!cands.empty()) {
+              string fpv = val(ci->getCalledOperand());
+              body << "  ";
+              for (const Function* cand : cands) {
+                string cn2 = gname(cand);
+                string cargs;
+                FunctionType* cft = cand->getFunctionType();
+                bool cext = cand->isDeclaration();
+                for (unsigned i = 0; i < ci->arg_size(); i++) {
+                  if (i) cargs += ", ";
+                  string a = arg(i);
+                  Type* at = ci->getArgOperand(i)->getType();
+                  if (at->isPointerTy()) a = cext ? "(void*)(" + a + ")" : "(" + cty(cft->getParamType(i)) + ")(" + a + ")";
+                  cargs += a;
+                }
+                string call = cn2 + "(" + cargs + ")";
+                if (t->isPointerTy()) call = "(" + cty(t) + ")" + call;
+                body << "if ((void*)(" << fpv << ") == (void*)(" << cn2 << ")) { " << lhs << call << "; } else ";
+              }
+              body << "{ VP_CHK(\"virtual-call-target-not-in-any-vtable-slot\", 0); __CPROVER_assume(0); }\n";
+            } else {
+            if (ext && (t->isStructTy() || t->isArrayTy())) {
+              body << "  " << callee << "((void*)&" << fc.names[&I] << (args.empty() ? "" : ", ") << args << ");\n";
+            } else {
             string call = callee + "(" + args + ")";
             if (ext && t->isPointerTy()) call = "(" + cty(t) + ")" + call;
             body << "  " << lhs << call << ";\n";
+            }
+            }
             if (cf && cf->doesNotReturn()) body << "  VP_CHK(\"noreturn-call-returned\", 0); __CPROVER_assume(0);\n";
           }
         }
